@@ -22,6 +22,7 @@ import (
 	"verifsim/arena"
 	"verifsim/model"
 	"verifsim/prng"
+	"verifsim/sched"
 	"verifsim/work"
 )
 
@@ -148,12 +149,32 @@ func addStats(dst, src *work.Stats) {
 	}
 }
 
+// scheduled turns a single-task run into a scheduled one: used when the library
+// starts goroutines of its own, so that their interleaving with the caller is
+// decided by the simulator and replays.
+func scheduled(run *work.Run, build string, seed, idx uint64) *work.Run {
+	if build == "plain" {
+		return run
+	}
+	r := prng.New(prng.Mix(seed, idx) ^ 0x5c4ed01e)
+	run.Build = build
+	switch r.N(3) {
+	case 0:
+		run.Sched = sched.Spec{Policy: "pct", D: 1 + r.N(4)}
+	case 1:
+		run.Sched = sched.Spec{Policy: "walk", P: 0.0005 + 0.2*r.F()*r.F()}
+	default:
+		run.Sched = sched.Spec{Policy: "rr", K: uint64(1 + r.N(400))}
+	}
+	return run
+}
+
 func generate(prop string, seed, idx uint64, build string, sites *work.SiteTable) *work.Run {
 	switch prop {
 	case "C10":
-		return work.GenC10(seed, idx)
+		return scheduled(work.GenC10(seed, idx), build, seed, idx)
 	case "C15":
-		return work.GenC15(seed, idx)
+		return scheduled(work.GenC15(seed, idx), build, seed, idx)
 	case "C16":
 		var fs []string
 		if sites != nil {
@@ -202,6 +223,11 @@ func worker(args []string) {
 		fmt.Fprintln(os.Stderr, err)
 		os.Exit(2)
 	}
+	va, err := arena.NewVars(32)
+	if err != nil {
+		fmt.Fprintln(os.Stderr, err)
+		os.Exit(2)
+	}
 	g := work.CaptureGlobals()
 	out := &WorkerOut{Prop: *prop, Build: *build, Stats: work.NewStats(), Policies: map[string]uint64{}, Globals: g.Names(), FirstIdx: *from}
 	distinct := map[uint64]bool{}
@@ -212,7 +238,7 @@ func worker(args []string) {
 			break
 		}
 		run := generate(*prop, *seed, idx, *build, sites)
-		res := work.Exec(run, ar, g, sites)
+		res := work.Exec(run, ar, va, g, sites)
 		out.Runs++
 		out.LastIdx = idx
 		if res.Incon != nil {
@@ -266,7 +292,7 @@ func worker(args []string) {
 		// in-process determinism re-check on ~2% of the runs
 		if detR.P(0.02) {
 			run2 := generate(*prop, *seed, idx, *build, sites)
-			res2 := work.Exec(run2, ar, g, sites)
+			res2 := work.Exec(run2, ar, va, g, sites)
 			out.DetChecks++
 			if res2.Incon != nil || res2.Violation != nil || res2.Stats.TraceHash != res.Stats.TraceHash || res2.Stats.ObsHash != res.Stats.ObsHash || res2.Stats.Steps != res.Stats.Steps || progHash(run2) != ph || res2.Stats.Observes != res.Stats.Observes {
 				out.DetFail = fmt.Sprintf("run %d did not repeat: steps %d vs %d, trace %x vs %x", idx, res.Stats.Steps, res2.Stats.Steps, res.Stats.TraceHash, res2.Stats.TraceHash)
@@ -318,8 +344,13 @@ func replay(args []string) {
 		fmt.Fprintln(os.Stderr, err)
 		os.Exit(2)
 	}
+	va, err := arena.NewVars(32)
+	if err != nil {
+		fmt.Fprintln(os.Stderr, err)
+		os.Exit(2)
+	}
 	g := work.CaptureGlobals()
-	res := work.Exec(rf.Run, ar, g, sites)
+	res := work.Exec(rf.Run, ar, va, g, sites)
 	if res.Incon != nil {
 		if !*quiet {
 			fmt.Fprintln(os.Stderr, res.Incon)
